@@ -82,6 +82,14 @@ def get_strategy_base():
                          tuple(sorted((str(k), repr(v)) for k, v in sv.items())), len(store.logs.info) if hasattr(store.logs, 'info') else -1)
                     if hook == 'before' and self.index % 7 == 0:
                         sv[f'r{self._sim_route}'] = (int(self.index), self.symbol)
+                    if hook == 'before':
+                        # an indicator value as a strategy computes it (non-sequential: the framework slices the input
+                        # by a process-wide setting) and that setting itself
+                        import jesse.indicators as ta
+                        import jesse.helpers as jh_
+                        cs = self.candles
+                        c.ev('env_ind', self._sim_route, int(len(cs)), C.fnum(ta.ema(cs, period=9)) if len(cs) >= 2 else None,
+                             jh_.get_config('env.data.warmup_candles_num', None))
                 except Exception as e:
                     c.ev('env', self._sim_route, 'raised', type(e).__name__)
             c.dispatch('hook', self, hook, extra)
